@@ -6,6 +6,7 @@
 
 mod gen;
 mod out;
+mod trap;
 mod c05;
 
 use gen::Rng;
@@ -64,6 +65,13 @@ fn main() {
     let mut rng = Rng::new(seed);
     match prop.as_str() {
         "C05" => c05::run(&mut out, &mut rng, tier),
+        "trapselftest" => match trap::selftest() {
+            Ok(()) => eprintln!("trap selftest ok ({} traps)", trap::total_traps()),
+            Err(e) => {
+                eprintln!("trap selftest FAILED: {}", e);
+                std::process::exit(2);
+            }
+        },
         _ => {
             eprintln!("unknown property {}", prop);
             std::process::exit(2);
